@@ -200,3 +200,21 @@ package volume
 //@ requires[C18] c2[j] == c[j] && c2[j+1] == c[j+1] && v2[j] == mu * v[j]
 //@ ensures[C18] fiPrevVolS(c2, v2)[j] == mu * fiPrevVolS(c, v)[j]
 //@ use mul_assoc(mu, c[j+1] - c[j], v[j])
+//@ lemma mfvS_pscale(h stream, l stream, c stream, v stream, h2 stream, l2 stream, c2 stream, v2 stream, lam real, j int)
+//@ requires[C18] lam > 0 && h2[j] == lam * h[j] && l2[j] == lam * l[j] && c2[j] == lam * c[j] && v2[j] == v[j] && h[j] != l[j]
+//@ ensures[C18] mfvS(h2, l2, c2, v2)[j] == mfvS(h, l, c, v)[j]
+//@ use mul_lin(lam, c[j], l[j])
+//@ use mul_lin(lam, h[j], c[j])
+//@ use mul_lin(lam, h[j], l[j])
+//@ use mul_lin(lam, c[j] - l[j], h[j] - c[j])
+//@ use ratio_scale(lam, (c[j] - l[j]) - (h[j] - c[j]), h[j] - l[j])
+//@ lemma mfvS_vscale(h stream, l stream, c stream, v stream, h2 stream, l2 stream, c2 stream, v2 stream, mu real, j int)
+//@ requires[C18] h2[j] == h[j] && l2[j] == l[j] && c2[j] == c[j] && v2[j] == mu * v[j]
+//@ ensures[C18] mfvS(h2, l2, c2, v2)[j] == mu * mfvS(h, l, c, v)[j]
+//@ use mul_assoc(mu, mfmS(h, l, c)[j], v[j])
+//@ lemma cmfS_scale(h stream, l stream, c stream, v stream, h2 stream, l2 stream, c2 stream, v2 stream, a real, P int, n int, k int)
+//@ requires[C18] a > 0 && P >= 1 && 0 <= k && k + P <= n && (forall j :: 0 <= j && j < n ==> mfvS(h2, l2, c2, v2)[j] == a * mfvS(h, l, c, v)[j] && v2[j] == a * v[j]) && winS(v, P)[k] != 0
+//@ ensures[C18] cmfS(h2, l2, c2, v2, P)[k] == cmfS(h, l, c, v, P)[k]
+//@ use smaS_scale(mfvS(h, l, c, v), mfvS(h2, l2, c2, v2), a, P, k)
+//@ use smaS_scale(v, v2, a, P, k)
+//@ use ratio_scale(a, winS(mfvS(h, l, c, v), P)[k], winS(v, P)[k])
